@@ -119,16 +119,18 @@ OPS = ["attach", "walk", "walk2", "create", "rename"]
 def c18(plan):
     runs = []
     for (op, u, L, alpha) in plan:
-        al = "{. / a}" if alpha == 3 else "{. / a b}"
+        al = {3: "{. / a}", 4: "{. / a b}", 5: "{. / r} (the root's own name; siblings /rr and /r. are canaries)"}[alpha]
         runs.append({"harness": "vxH18Confine", "args": [B(u), str(op), str(L), str(alpha), "false"], "files": F("c18_confine"), "reach": ["served", "refused"],
                      "bounds": f"H18.confine {OPS[op]}, dotu={B(u)}: every string of length 0..{L} over {al}" + (" for each of 2 elements" if op == 2 else "") +
                                ("; fid at /r, /r/a, /r/a/a or /r/a/.." if op in (1, 2, 3) else "") + ("; file/dir/symlink/hard link" if op == 3 else "") +
                                ("; renamed object at depth 1..3" if op == 4 else "")})
     return runs
 w("C18", {
- "quick": c18([(0, False, 4, 3), (0, True, 4, 3), (1, False, 4, 3), (1, True, 4, 3), (2, True, 3, 3), (3, True, 4, 3), (3, False, 4, 3), (4, True, 4, 3), (4, False, 4, 3)]),
- "thorough": c18([(0, True, 5, 4), (0, False, 5, 4), (1, True, 5, 4), (1, False, 5, 4), (2, True, 4, 3), (2, True, 3, 4), (3, True, 5, 4), (4, True, 5, 4), (4, False, 5, 4)]),
+ "quick": c18([(0, False, 4, 3), (0, True, 4, 3), (1, False, 4, 3), (1, True, 4, 3), (2, True, 3, 3), (3, True, 4, 3), (3, False, 4, 3), (4, True, 4, 3), (4, False, 4, 3),
+                (0, True, 4, 5), (1, True, 4, 5), (3, True, 4, 5), (4, True, 5, 5)]),
+ "thorough": c18([(0, True, 5, 4), (0, False, 5, 4), (1, True, 5, 4), (1, False, 5, 4), (2, True, 4, 3), (2, True, 3, 4), (3, True, 5, 4), (4, True, 5, 4), (4, False, 5, 4),
+                   (0, True, 5, 5), (1, True, 5, 5), (2, True, 3, 5), (3, True, 5, 5), (4, True, 5, 5), (4, False, 5, 5)]),
  "outside": ["symlinks inside the tree that point outside it (excluded by the statement's hypothesis)", "names longer than 5 bytes or with other bytes (the code treats all bytes other than '/' and '.' alike)", "walks of more than 2 elements in one Twalk (each element is resolved from the path left by the previous one; the fid-path invariant carries over)",
              "requests that use only the fid's own path (open/read/remove/stat/clunk): covered by the invariant 'every fid path resolves inside the root' asserted after every request"],
- "assumptions": ["containment is judged by refInside in harness/c18_confine.go: an independent lexical resolver ('', '.', '..' element by element); every path argument of every creating/opening/changing/removing model-FS call is checked; pure queries (lstat/stat/readlink) on outside paths are judged by their effect (no qid of an outside object in the reply, every fid path still inside) — the harness argument strict=true checks them directly as well", "the tree has canaries /a, /a/a, /aa, /b next to the exported /r"],
+ "assumptions": ["containment is judged by refInside in harness/c18_confine.go: an independent lexical resolver ('', '.', '..' element by element); every path argument of every creating/opening/changing/removing model-FS call is checked; pure queries (lstat/stat/readlink) on outside paths are judged by their effect (no qid of an outside object in the reply, every fid path still inside) — the harness argument strict=true checks them directly as well", "the tree has canaries /a, /a/a, /aa, /b, /rr, /rr/r, /r. next to the exported /r"],
 })
